@@ -79,7 +79,7 @@ func c13Units(tier string) []string {
 			u = append(u, fmt.Sprintf("blob-bytes#%s#%d", s, k))
 		}
 	}
-	return append(u, "short-strings#image", "short-strings#blob", "bigfiles", "scaling", "cert-entries")
+	return append(u, "short-strings#image", "short-strings#blob", "bigfiles", "scaling", "cert-entries", "section-counts")
 }
 
 func c13DriveImage(x []byte) { c13DriveImageVia(bytes.NewReader(x)) }
@@ -229,7 +229,7 @@ func c13Run(c *hx.Ctx, tier, unit string) {
 	switch parts[0] {
 	case "scaling":
 		// time proportional to the input size: n and 8n sections / attributes / certificates / signer entries
-		scalingRun(c, "C13", "image driver", "image with n sections", 1024, func(n int) []byte {
+		scalingRun(c, "C13", "image driver", "image with n sections", 8191, func(n int) []byte {
 			secs := make([]pegen.Sec, n)
 			for i := range secs {
 				secs[i] = pegen.Sec{RawSize: 8 * (i % 3)}
@@ -263,7 +263,7 @@ func c13Run(c *hx.Ctx, tier, unit string) {
 		for _, w := range []struct {
 			what string
 			n    int
-		}{{"attributes", 2048}, {"certificates", 256}, {"signer entries", 256}} {
+		}{{"attributes", 12500}, {"certificates", 2048}, {"signer entries", 2048}} { // 8n is large enough for a quadratic step of ~10 ns per pair to take many seconds
 			for e := range c13BlobEntries {
 				e := e
 				scalingRun(c, "C13", c13BlobEntries[e], "blob with n additional "+w.what, w.n, grow(w.what), func(in []byte) { c13DriveBlob(e, in, seed.Detached) })
@@ -382,6 +382,16 @@ func c13Run(c *hx.Ctx, tier, unit string) {
 			if c.Expired() {
 				return
 			}
+		}
+	case "section-counts":
+		// NumberOfSections is a 16-bit field: images whose section table really has 254..257, 32767,
+		// 32768 and 65531..65535 entries (all but two without raw data), well-formed throughout
+		for _, n := range []int{254, 255, 256, 257, 32767, 32768, 65531, 65532, 65533, 65534, 65535} {
+			secs := make([]pegen.Sec, n)
+			secs[0].RawSize, secs[n-1].RawSize = 13, 8
+			x := pegen.Build(pegen.Layout{PE32Plus: true, Lfanew: 0x40, Secs: secs, Trailing: 3})
+			c.Tick()
+			robustRun(c, "C13", "image driver", fmt.Sprintf("image with %d section headers", n), x[:min(len(x), 4096)], func() { c13DriveImage(x) })
 		}
 	case "cert-entries":
 		// certificate-table entries of every type the specification names (and some it does not), both
